@@ -8,7 +8,9 @@ import (
 	gocontext "context"
 	"fmt"
 	"io"
+	"os"
 	"sort"
+	"strconv"
 	"sync"
 	"time"
 
@@ -327,6 +329,19 @@ func (d *DT) Apply(resp []byte) (applied bool, pan string) {
 }
 
 // OpRow is one stored operation document.
+// Patience scales a wall-clock limit after which the harness calls something "not answered" / "not arrived". The
+// limits only matter when something fails; on a loaded machine (16 workers next to TLC) an answer may be seconds
+// late, which is slowness and not a hang. VERIF_PATIENCE overrides the factor.
+func Patience(d time.Duration) time.Duration {
+	f := 3
+	if s := os.Getenv("VERIF_PATIENCE"); s != "" {
+		if n, err := strconv.Atoi(s); err == nil && n > 0 {
+			f = n
+		}
+	}
+	return d * time.Duration(f)
+}
+
 type OpRow struct {
 	ID     string
 	DUID   string
